@@ -54,6 +54,16 @@ CLAIMS = {
          "durations, composition offsets, sync list, chunking; chunk offsets absolute for the layout (ftyp+8 resp. ftyp+moov+8) for two "
          "different moov lengths; top-level order; placeholder and final pass of fast start see tables of identical shape; the API flag "
          "reaches the writer.", "moov stand-in of configurable length stands for metadata of any length; <= 2 video + 1 audio samples; pts < 2^31.", "§4 C08"),
+ "C09": ("Cross-track timeline relation on the tables the real Mp4Writer::finalize hands to the moov builder (both layouts, 1 video + 2 audio "
+         "samples, all first video pts/dts and audio pts < 2^31 with dts <= pts <= first audio pts, any audio gap < 2^30), read with the "
+         "ISO 14496-12 rules of a track without edit list (DT(0)=0, CT = DT + ctts): presentation time of each audio sample minus "
+         "that of the first video sample = difference of the submitted ticks. That the real trak builders emit exactly {tkhd, mdia} - no "
+         "edts - is decided by c02_trak_video_1 / c02_trak_audio_1 (run under C09 too). Holds exactly when the audio starts at the first "
+         "video decode time; every other start is the known finding KF-C09-no-track-start-offset (witness harness; natively reproduced "
+         "on the real moov).",
+         "Tick level (the f64 seconds->ticks rounding is the C03 conversion harness: that is where the property's 'within one tick' goes); "
+         "moov stand-in + structural argument that build_moov_box receives nothing but the tables; 3 samples; an edit-list based repair would "
+         "need the stand-in extended (the native oracle refuses to judge a file with edts).", "§4 C09"),
  "C10": ("(a) build_media_segment for 1..3 queued samples with symbolic pts/dts/sync/bytes/sequence/base: exactly moof+mdat, sizes "
          "tile, data_offset points at sample 0, per-sample size/flags, payload = queue in order. (b) step relation of write_video, "
          "flush_segment, ready_to_flush, current_fragment_duration_ms from arbitrary hook-built states with 0..2 queued samples: "
@@ -102,8 +112,6 @@ CLAIMS = {
 }
 
 NA = {
- "C09": "needs the presentation timeline of two tracks in the real moov (edit lists / start offsets): the two-track moov does not fit the "
-        "engine and with the moov stand-in the thing to observe is gone; from reading, no edit list is ever written (recorded in DESIGN.md §5)",
  "C17": "quantifies over thread schedules and all sink types: Kani does not model concurrency and Send/Sync is a type-check, not a solver query; "
         "byte-identity of equivalent API paths needs whole output files (real moov), which do not fit",
  "C20": "process-level behaviour of the CLI binary (clap, file system, exit status); its hex / box-walk kernels are inline in I/O functions of "
